@@ -203,6 +203,33 @@ def run_property(pid, spec, tier="quick", seed=0, out=sys.stdout):
         "repo_digest": repo.digest(),
         "files_parsed": len(repo.modules),
     }
+    if tier == "thorough" and not os.environ.get("VERIF_NO_SELFTEST"):
+        # sensitivity of this property's rules on *this* tree: every catalogue mutant of the property is applied to a scratch
+        # copy of the analysed tree (removed afterwards) and the quick check must fire / stay silent as recorded.  Informational:
+        # the verdict on the tree itself (rc) is not changed by it; a mutant whose anchor text is gone is skipped.
+        try:
+            from concurrent.futures import ThreadPoolExecutor
+            from .mutants import MUTANTS
+            from .selftest import _run_one
+
+            muts = [m for m in MUTANTS if m[1] == pid and m[3] is not None]
+            res = []
+            with ThreadPoolExecutor(max_workers=int(os.environ.get("VERIF_JOBS", "16"))) as ex:
+                res = list(ex.map(_run_one, muts))
+            okc = sum(1 for r in res if r[2] == "ok")
+            skipped = [r[0] for r in res if r[2] == "SELFTEST-ERROR"]
+            failed = [r[0] for r in res if r[2] == "FAIL"]
+            cov["self_test"] = {
+                "what": "catalogue mutants of this property applied to scratch copies of the analysed tree; breaking mutants must be reported (naming the instance), benign twins must stay silent",
+                "mutants": len(muts),
+                "as_expected": okc,
+                "anchor_text_gone": skipped,
+                "not_as_expected": failed if rc == 0 else [],
+                "note": "" if rc == 0 else "the analysed tree itself violates the property: twin verdicts are not meaningful and are not listed",
+            }
+            print("  self-test: %d mutants of %s on scratch copies, %d as expected%s%s" % (len(muts), pid, okc, (", skipped %s" % skipped) if skipped else "", (", NOT as expected %s" % failed) if failed and rc == 0 else ""), file=out)
+        except Exception as e:  # never let the informational part change the verdict
+            cov["self_test"] = {"error": repr(e)}
     ev = {
         "property_id": pid,
         "tier": tier,
